@@ -289,6 +289,18 @@ func selfTest(pr *rules.Property, base *an.Prog, outDir string, findings []an.Fi
 		}
 		jobs = append(jobs, j)
 	}
+	// behaviour-preserving changes written by independent sub-agents (refactors/<ID>/patch.diff): the
+	// standing negative examples — no rule of any property may report anything on them
+	refs, _ := filepath.Glob(filepath.Join(outDir, "refactors", "*", "patch.diff"))
+	for _, pf := range refs {
+		name := "refactors/" + filepath.Base(filepath.Dir(pf))
+		files, err := applyPatch(repo, pf)
+		j := job{name: name, rule: "-", files: files}
+		if err != nil {
+			j.files, j.why = nil, fmt.Sprintf("%s: patch does not apply to the current tree: %v", name, err)
+		}
+		jobs = append(jobs, j)
+	}
 	st := &an.SelfTest{Mutants: len(jobs)}
 	type res struct {
 		name                    string
